@@ -43,10 +43,18 @@ impl RuntimeError {
             Self::FileNotFound => 53,
             Self::FileAlreadyOpen => 55,
             Self::InputPastEndOfFile => 62,
+            Self::OutOfData => 4,
+            Self::VariableRequired => 40,
+            Self::FieldOverflow => 50,
+            Self::BadFileMode => 54,
+            Self::DeviceIOError(_) => 57,
+            Self::BadRecordLength => 59,
+            Self::BadRecordNumber => 63,
             // the following are not QBasic codes
             Self::Other(_) => 257,
             Self::ForLoopZeroStep => 258,
-            _ => panic!("not implemented for {:?}", self),
+            Self::ElementNotDefined => 259,
+            Self::LinterError(_) => 260,
         }
     }
 }
